@@ -108,4 +108,5 @@ unsigned tl_witness(const char *sub, const char *suffix, const char ***pathsp); 
 char *tl_read_file(const char *path, size_t *lenp);
 
 uint64_t tv_shape_hash(hwloc_topology_t t);
+int tv_has_empty_normal_object(hwloc_topology_t t);   /* see gen.c */
 #endif
